@@ -332,6 +332,31 @@ func runC16(rc *RunCtx) {
 			}
 		}
 	}
+	// well-formed headers whose address words are the module's own padded address (as recipient, as sender, as caller, as
+	// all three), for either direction of travel and every body length: parsing does not look at what the words mean
+	for l := 116; l <= 420; l++ {
+		if (l+rc.Shard)%rc.NShards != 0 && l > 140 && (l < 240 || l > 260) {
+			continue
+		}
+		for w := 1; w < 8; w++ {
+			for _, dir := range [][2]uint32{{0, 4}, {4, 0}, {4, 4}, {7, 9}} {
+				m := &ref.Message{Version: 0, SrcDomain: dir[0], DstDomain: dir[1], Nonce: uint64(l), Sender: structured(32, 0x11), Recipient: structured(32, 0x55), Caller: structured(32, 0x99), Body: structured(l-116, 0xc1)}
+				if w&1 != 0 {
+					m.Recipient = append([]byte(nil), ct.PaddedModuleAddress...)
+				}
+				if w&2 != 0 {
+					m.Sender = append([]byte(nil), ct.PaddedModuleAddress...)
+				}
+				if w&4 != 0 {
+					m.Caller = append([]byte(nil), ct.PaddedModuleAddress...)
+				}
+				if bz, err := ref.EncodeMessage(m); err == nil {
+					c16Message(rc, bz, "module-address-words")
+				}
+				c16EncodeMessage(rc, m, "module-address-words")
+			}
+		}
+	}
 	for k := 0; k < rc.Pick(30000, 400000); k++ {
 		bz := make([]byte, 132)
 		r.Read(bz)
